@@ -160,7 +160,19 @@ class SwapCmp(ast.NodeTransformer):
         return node
 
 
-KINDS = {"nestedif": NestedIf, "swapcmp": SwapCmp, "pos2kw": Pos2Kw, "unpack": Unpack, "rename": Rename, "flip": Flip, "rettemp": RetTemp, "kwrev": KwRev, "ifexp2if": IfExp2If, "augassign": AugAssign, "earlyret": EarlyRet}
+class Comp2Loop(ast.NodeTransformer):
+    """`xs = [e for t in seq]` (single generator, no condition)  ->  `xs = []` + for-loop with append"""
+    def visit_Assign(self, node):
+        v = node.value
+        if isinstance(v, ast.ListComp) and len(v.generators) == 1 and not v.generators[0].ifs and len(node.targets) == 1 and isinstance(node.targets[0], ast.Name):
+            nm = node.targets[0].id
+            g = v.generators[0]
+            return [ast.Assign(targets=[ast.Name(id=nm, ctx=ast.Store())], value=ast.List(elts=[], ctx=ast.Load()), lineno=node.lineno),
+                    ast.For(target=g.target, iter=g.iter, body=[ast.Expr(value=ast.Call(func=ast.Attribute(value=ast.Name(id=nm, ctx=ast.Load()), attr="append", ctx=ast.Load()), args=[v.elt], keywords=[]))], orelse=[], lineno=node.lineno)]
+        return node
+
+
+KINDS = {"comp2loop": Comp2Loop, "nestedif": NestedIf, "swapcmp": SwapCmp, "pos2kw": Pos2Kw, "unpack": Unpack, "rename": Rename, "flip": Flip, "rettemp": RetTemp, "kwrev": KwRev, "ifexp2if": IfExp2If, "augassign": AugAssign, "earlyret": EarlyRet}
 
 
 def run_checks(repo):
